@@ -38,7 +38,7 @@ def run(run):
     run.assumptions += ["the prebuilt _libtoasty*.so was built from toasty/_libtoasty.pyx (no Cython in the sandbox)",
                         "_mid / mid compute the same symmetric great-circle midpoint"]
     run.undecided_clauses += ["every pixel centre lies inside its tile and within the corner latitude range (spherical geometry)"]
-    for r, n in (("C05.R1", 6), ("C05.R2", 2), ("C05.R3", 1), ("C05.R4", 1), ("C05.R5", 1)):
+    for r, n in (("C05.R1", 6), ("C05.R2", 2), ("C05.R3", 1), ("C05.R4", 1), ("C05.R5", 1), ("C05.R6", 4)):
         run.floor(r, n)
     project = run.project
     # ---- R1
@@ -193,6 +193,9 @@ def run(run):
         run.undecided("C05.R4", None, None, "memo rule self-check failed", kind="selfcheck", construct="<memo selfcheck>")
     if not [o for o in run.obs if o.rule == "C05.R4"]:
         run.holds("C05.R4", h, None, "no memo table / shared scratch container in toasty.toast (0 uses); positive example flagged", table_uses=n)
+    # ---- R6: "both coordinate systems": the tile whose grid is computed carries the corners of the system that was asked for
+    if toastgeom.coordsys_forwarding(run, "C05.R6") < 4:
+        run.undecided("C05.R6", None, None, "fewer than 4 call sites hand a coordinate system on", kind="floor", construct="<coordsys forwarding>", file="toasty/toast.py")
 
 
 def _subst(t, m):
